@@ -18,7 +18,7 @@ Simple(p) == p[Len(p)]
 \* two candidate targets per type
 Cand(p) == IF Len(p) = 1 THEN {<<"A", "B">>, <<"B", "A">>} ELSE IF Len(p) = 2 THEN {<<Simple(p)>>, <<"A", "B", "A">>} ELSE {<<"B">>, <<"A", "B">>}
 Code(p) == IF p = <<"A">> THEN 65 ELSE IF p = <<"B">> THEN 66 ELSE IF p = <<"A", "B">> THEN 67 ELSE IF p = <<"B", "A">> THEN 68 ELSE 69
-F(num, name, json, kind, card, packed, kkind, mt) == [num |-> num, name |-> name, jn |-> json, kind |-> kind, card |-> card, packed |-> packed, kkind |-> kkind, mt |-> mt, node |-> 0]
+F(num, name, json, kind, card, packed, kkind, mt) == [num |-> num, name |-> name, jn |-> json, kind |-> kind, card |-> card, packed |-> packed, kkind |-> kkind, mt |-> mt, node |-> 0, acc |-> TRUE]
 \* names as bytes: "id" / json "j<code>" ; "next" ; "m"
 FieldsOf(p) == <<F(1, <<105, 100>>, <<106, Code(p)>>, "int32", "one", FALSE, "", ""),
                  F(2, <<110, 101, 120, 116>>, <<110, 101, 120, 116>>, "message", "one", FALSE, "", FQ(wire[p])),
